@@ -270,7 +270,9 @@ class CTCSkipInserter(Elaboratable):
         #   (20 bytes of DPH) + (1036 bytes of DPP) + (6 bytes of SKP)
         # This sequence is 1062, or 354*3, bytes long. Since we only transmit pairs of SKP ordered sets,
         # the maximum amount of pending SKP ordered sets at any time is 4.
-        skips_to_send = Signal(range(5))
+        # (That holds for a single maximum-length packet; as bursts of back-to-back packets can delay SKP
+        # insertion for longer, we'll leave plenty of headroom rather than let the count wrap around.)
+        skips_to_send = Signal(8)
         skip_needed   = Signal()
 
         # Precisely count the amount of skip ordered sets that will be inserted at the next opportunity.
